@@ -33,6 +33,14 @@ var goModels = map[string]string{
 	"strings.Index":                      "ModelIndexString",
 	"bytes.Index":                        "ModelIndex",
 	"(*sync.Once).Do":                    "ModelOnceDo",
+	"(*sync.Map).Load":                   "ModelSyncMapLoad",
+	"(*sync.Map).Store":                  "ModelSyncMapStore",
+	"(*sync.Map).LoadOrStore":            "ModelSyncMapLoadOrStore",
+	"(*sync.Map).LoadAndDelete":          "ModelSyncMapLoadAndDelete",
+	"(*sync.Map).Delete":                 "ModelSyncMapDelete",
+	"(*sync.Map).Swap":                   "ModelSyncMapSwap",
+	"(*sync.Map).Range":                  "ModelSyncMapRange",
+	"(*sync.Map).Clear":                  "ModelSyncMapClear",
 	"(*sync.Pool).Get":                   "ModelPoolGet",
 	"(*sync.Pool).Put":                   "ModelPoolPut",
 	"crypto/subtle.ConstantTimeCompare":  "ModelConstantTimeCompare",
